@@ -120,6 +120,10 @@ def run(ctx, prefixes):
     # spec -> code: schedules that take every edge of the TwoPL state graph, performed on the real engine
     for cfg, name in ([("MC_walk1.cfg", "1key"), ("MC_walk2.cfg", "2keys"), ("MC_walk1_3.cfg", "1key3stmt")] if thorough else [("MC_walk1.cfg", "1key")]):
         sch = graph_schedules(ctx, cfg, name)
+        if len(sch) > 70000:                       # (the 3-statement graph has ~260 000 edges: a seeded sample of them)
+            random.Random(ctx.seed).shuffle(sch)
+            sch = sch[:40000]
+            ctx.cov["graph_schedules_" + name + "_run"] = len(sch)
         wf = os.path.join(ctx.work, name + "-sched.json")
         json.dump(sch, open(wf, "w"))
         wtr = os.path.join(ctx.work, name + "-walk.ndjson")
